@@ -160,4 +160,13 @@ CHECKS["C03"] = {
             "Decorators and JSX are outside the model.",
     "design_ref": "DESIGN.md §4 C03",
 }
+CHECKS["C05"] = {
+    "technique": "Lean 4 proof over M-Parse (work of speculative parsing with/without the failure memo, recursion depth under the guard, depth of loop-built chains - for every nesting structure) + deterministic lexer-work counter of the real front end against the model's bounds + abort/panic/loop search over generated inputs on a 2 MB thread",
+    "text": "costFirst_le / costFirst_quadratic (with the failure memo a speculative parse of any nesting structure costs at most size x depth <= size^2 construct visits), costNaive_chain (without it k nested constructs cost 2^(k+1)-1), "
+            "guard_bounds_recursion / guard_accepts_iff (the guarded descent never enters a level beyond limit+1 and accepts exactly by depth, monotonically), leftDeep_depth are Lean theorems over all skeletons. "
+            "The real parser+compiler run every input on a 2 MB thread with the cfg(tsrun_verif) token counter and a work budget: 70 nesting/chain families up to 200000 levels (doubling sizes: growth at most quadratic; acceptance monotone), "
+            "random skeletons rendered in 9 syntactic families (work <= K x model cost), prefixes and single-token mutations of valid programs, token soups, random bytes, truncated-construct corpus: outcome must be accept or a syntax/compile error value.",
+    "note": "The work unit of the model (construct visit) and of the code (lexer token) are related by calibrated constants; the depth guard is a byte budget in the code and a level count in the model. Totality outside the modelled mechanisms is searched, not proved.",
+    "design_ref": "DESIGN.md §4 C05",
+}
 NOT_YET = {}
